@@ -178,7 +178,9 @@ claim("C04",
       "Rocq theorems (decision rules of the coordinator model, all states): C04_status (Success if goal, else Fail if detected, else "
       "TimeoutReached at the step limit, else unchanged), C04_step (counters, end rule incl. 'no attacker playing any more', final "
       "results wait at the rewards barrier), C04_reply, C04_absorbing (+frame: FORBIDDEN with the same view, reward, reason; no "
-      "counter changes), C04_defender_reason; across labels, for every reachable state and every continuation: C04_stays_ended (ended, "
+      "counter changes), C04_defender_reason; across labels, for every reachable state and every continuation: C04_reason_stays / "
+      "C04_late_defender (Props/C04_reason.v: an attacker's reason does not change until the reset task runs, whatever it asks for; a "
+      "Defender paid at a later run of the reward task in the same episode is told Fail as long as a successful attacker is in the game), C04_stays_ended (ended, "
       "step counter and view frozen until the reset task or departure), C04_limit (Proofs/CoordLimit.v: in every reachable state an "
       "agent with step limit m > 0 has at most m steps and has ended once it has m), C04_origin, C04_one_label (complete case list of what one label can do "
       "to one agent's record). The goal check itself (Model/Goal.v = GameCoordinator.goal_check on the views of the world model; "
@@ -207,6 +209,9 @@ claim("C05",
       "while the attacker is playing (paid by the attackers' outcome alone).",
       C_NOTE, C_TECH, "DESIGN.md section 7, C05")
 claim("C06",
+      "Across labels (Props/C04_reason.v, Proofs/CoordReason.v): C04_reason_stays (the reason an attacker ended with does not change "
+      "until the reset task runs, whatever it asks for), C04_defender_paid_by_outcome, C04_late_defender (a Defender paid at a later "
+      "run of the reward task in the same episode is told Fail as long as a successful attacker is in the game). "
       "Rocq theorems: C06_end (handlers waiting for the end are released only by the reward task, which does nothing unless every "
       "agent in the game has finished), C06_end_all (then all are released in one step: no lost wake-up), C06_quiescent, C06_nonfinal "
       "(non-final observations are answered in the segment that executed the action), C06_parked_final (in every reachable state a "
